@@ -582,7 +582,7 @@ func (fr *frame) sliceOp(x *ssa.Slice, st *State, reach string) {
 		} else {
 			fr.safety(x, reach, and(app("<=", "0", lo), app("<=", lo, hi), app("<=", hi, cp)), "slice bounds out of range")
 		}
-		fr.set(x, sliceVal(x.Type(), xv.L[0], app("+", xv.L[1], lo), app("-", hi, lo), app("-", cp, lo)))
+		fr.set(x, sliceVal(x.Type(), xv.L[0], at(xv.L[1], lo), sub(hi, lo), sub(cp, lo)))
 	case *types.Basic: // string
 		ex.declareFun("str.len", []string{sStr}, sInt)
 		ex.declareFun("str.sub", []string{sStr, sInt, sInt}, sStr)
@@ -607,7 +607,7 @@ func (fr *frame) sliceOp(x *ssa.Slice, st *State, reach string) {
 			panic(unsupported("slicing an interior array"))
 		}
 		fr.safety(x, reach, and(app("<=", "0", lo), app("<=", lo, hi), app("<=", hi, n)), "slice bounds out of range")
-		fr.set(x, sliceVal(x.Type(), xv.L[0], lo, app("-", hi, lo), app("-", n, lo)))
+		fr.set(x, sliceVal(x.Type(), xv.L[0], lo, sub(hi, lo), sub(n, lo)))
 	default:
 		panic(unsupported("Slice on " + x.X.Type().String()))
 	}
